@@ -360,4 +360,3 @@ func (x *Exec) rangeIter(n *ast.RangeStmt, st *St, fr *Frame, k func(*St)) {
 func (x *Exec) rangeSet(n *ast.RangeStmt, rv *Val, st *St, fr *Frame, k func(*St)) {
 	oos("range over a map at %s", x.W.pos(n.Pos()))
 }
-
